@@ -250,27 +250,29 @@ SamePositionImpl(x, y) == /\ HashWithoutEp(x.zb) = HashWithoutEp(y.zb)
                           /\ x.zb.pieces = y.zb.pieces /\ x.zb.colors = y.zb.colors /\ x.zb.stm = y.zb.stm /\ x.zb.cr = y.zb.cr
                           /\ EffectiveEpImpl(x) = EffectiveEpImpl(y)
 
-(* ---- the staged validator, as called by the parser (builder = FALSE) and the builder ---- *)
+(* ---- the staged validator, as called by the parser and the builder ---- *)
 \* input: a candidate state [b, stm, cr, ep (file), hmc, fmn] whose ep RANK was already checked by the caller
-ImplStage(p) ==
+StageBoard(p) ==          \* board_is_valid + fewer than three checkers
   LET b == p.b  c == p.stm
-      boardOk == /\ \A k \in 0..1 : /\ Cardinality(Own(b, k)) <= 16 /\ Cardinality(Kings(b, k)) = 1
-                                     /\ Cardinality(PiecesOf(b, k, PAWN)) <= 8
-                                     /\ \A s \in PiecesOf(b, k, PAWN) : RankOf(s) \notin {0, 7}
-      zb == ZbOf(p)
-  IN IF ~boardOk THEN "InvalidBoard"
-     ELSE IF KingSq(b, 1-c) \in KingAtt[KingSq(b, c)] THEN "InvalidBoard"
-     ELSE IF CalcCheckersPins(zb, 1-c).chk # {} THEN "InvalidBoard"
-     ELSE IF Cardinality(CalcCheckersPins(zb, c).chk) >= 3 THEN "InvalidBoard"
-     ELSE IF ~RightsBacked(p) THEN "InvalidCastlingRights"
-     ELSE IF p.ep # -1 /\ ~( /\ EpBacked(p)
-                             /\ LET ks == KingSq(b, c)  them == 1 - c
-                                    src == SqOf(p.ep, IF them = 0 THEN 1 ELSE 6)  pawn == SqOf(p.ep, IF them = 0 THEN 3 ELSE 4)
-                                IN \A ch \in CalcCheckersPins(zb, c).chk : ch = pawn \/ src \in Between(ch, ks))
-          THEN "InvalidEnPassant"
-     ELSE IF p.hmc > 100 THEN "InvalidHalfMoveClock"
-     ELSE IF p.fmn = 0 THEN "InvalidFullmoveNumber"
-     ELSE "ok"
+      countsOk == \A k \in 0..1 : /\ Cardinality(Own(b, k)) <= 16 /\ Cardinality(Kings(b, k)) = 1
+                                   /\ Cardinality(PiecesOf(b, k, PAWN)) <= 8
+                                   /\ \A s \in PiecesOf(b, k, PAWN) : RankOf(s) \notin {0, 7}
+  IN /\ countsOk
+     /\ KingSq(b, 1-c) \notin KingAtt[KingSq(b, c)]
+     /\ LET zb == ZbOf(p) IN CalcCheckersPins(zb, 1-c).chk = {} /\ Cardinality(CalcCheckersPins(zb, c).chk) < 3
+StageRights(p) == RightsBacked(p)
+StageEp(p) == p.ep = -1 \/
+  ( /\ EpBacked(p)
+    /\ LET c == p.stm  ks == KingSq(p.b, c)  them == 1 - c  zb == ZbOf(p)
+           src == SqOf(p.ep, IF them = 0 THEN 1 ELSE 6)  pawn == SqOf(p.ep, IF them = 0 THEN 3 ELSE 4)
+       IN \A ch \in CalcCheckersPins(zb, c).chk : ch = pawn \/ src \in Between(ch, ks) )
+ImplStage(p) ==
+  IF ~StageBoard(p) THEN "InvalidBoard"
+  ELSE IF ~StageRights(p) THEN "InvalidCastlingRights"
+  ELSE IF ~StageEp(p) THEN "InvalidEnPassant"
+  ELSE IF p.hmc > 100 THEN "InvalidHalfMoveClock"
+  ELSE IF p.fmn = 0 THEN "InvalidFullmoveNumber"
+  ELSE "ok"
 \* a board as a constructor hands it out
 BoardOf(p) == LET zb == ZbOf(p)  cp == CalcCheckersPins(zb, p.stm) IN
               [zb |-> zb, chk |-> cp.chk, pin |-> cp.pin, hmc |-> p.hmc, fmn |-> p.fmn]
